@@ -35,9 +35,17 @@ class AsyncResult(object):
         self._is_exc = is_exc
         self._obj = obj
         self._is_ready = True
-        for cb in self._callbacks:
+        self._run_callbacks()
+
+    def _run_callbacks(self):
+        # the reply may be dispatched by one thread while another registers a callback: every callback is taken off
+        # the list by exactly one of them
+        while True:
+            try:
+                cb = self._callbacks.pop(0)
+            except IndexError:
+                return
             cb(self)
-        del self._callbacks[:]
 
     def wait(self):
         """Waits for the result to arrive. If the AsyncResult object has an
@@ -56,10 +64,9 @@ class AsyncResult(object):
 
         :param func: the callback function to add
         """
+        self._callbacks.append(func)
         if self._is_ready:
-            func(self)
-        else:
-            self._callbacks.append(func)
+            self._run_callbacks()
 
     def set_expiry(self, timeout):
         """Sets the expiry time (in seconds, relative to now) or ``None`` for
